@@ -777,3 +777,103 @@ def tier_seed(argv_tier=None):
     tier = argv_tier or os.environ.get("VERIF_TIER") or "quick"
     seed = int(os.environ.get("VERIF_SEED", "0") or 0)
     return tier, seed
+
+
+# ------------------------------------------------------------------------------------------------
+# one-shot evaluation helper used by the oracle checks
+
+class Res:
+    __slots__ = ("cls", "value", "out", "kind", "msg", "rec", "lines", "trace")
+
+    def __init__(self):
+        self.cls = None      # value | error | panic | crash | inconclusive
+        self.value = None    # decoded walk (Python value) when requested
+        self.out = None      # manifested text
+        self.kind = None     # error variant / family
+        self.msg = None
+        self.rec = None
+        self.lines = None
+        self.trace = None
+
+    def brief(self):
+        if self.cls == "value":
+            return {"class": "value", "out": (self.out or "")[:200]}
+        return {"class": self.cls, "kind": self.kind, "msg": (self.msg or "")[:200]}
+
+
+class Ev:
+    """Owns one server; evaluates sources and classifies outcomes."""
+
+    def __init__(self, agg):
+        self.agg = agg
+        self.srv = Server()
+
+    def close(self):
+        self.srv.close()
+
+    def run(self, src, walk=1, multiline=0, timeout=30.0, **kw):
+        lines = run_lines(src, walk=walk, multiline=multiline, **kw)
+        return self.run_lines(lines, timeout)
+
+    def run_lines(self, lines, timeout=30.0):
+        r = Res()
+        r.lines = lines
+        self.agg.evaluations += 1
+        try:
+            recs = self.srv.request(lines, timeout=timeout)
+        except Crashed as e:
+            if e.kind in ("timeout", "oom"):
+                r.cls = "inconclusive"
+                r.kind = e.kind
+                self.agg.inconc(e.kind)
+            else:
+                r.cls = "crash"
+                r.kind = "crash"
+                r.msg = e.detail[-400:]
+            return r
+        o = Outcome(recs)
+        r.rec = o.rec
+        tr = []
+        for rec in recs:
+            t = rec.get("trace")
+            if t and t != "-":
+                tr.extend(unhx_list(t))
+        r.trace = tr
+        if o.cls == "value":
+            r.cls = "value"
+            r.out = o.out
+            for rec in recs:
+                if "walk" in rec:
+                    r.value = decode_walk(rec["walk"])
+                    if rec.get("nonfinite") == "1":
+                        r.kind = "nonfinite"
+        elif o.cls == "panic":
+            r.cls = "panic"
+            r.kind = "panic"
+            r.msg = (o.rec.s("msg") or "") + " @ " + (o.rec.s("loc") or "")
+        elif o.cls == "herr":
+            raise Broken("harness error: " + (o.rec.s("msg") or o.rec.raw[:200]))
+        else:
+            r.cls = "error"
+            r.kind = o.rec.get("kind")
+            r.msg = o.rec.s("msg")
+        return r
+
+
+def panic_signature(r, extra=None):
+    msg = (r.msg or "")
+    msg = msg.split(" of `")[0].split("; it is inside")[0]
+    sig = {"kind": r.cls, "msg": re.sub(r"[0-9]+", "N", msg)[:140]}
+    if extra:
+        sig.update(extra)
+    return sig
+
+
+def f2bits(x):
+    import struct
+    return struct.unpack("<Q", struct.pack("<d", float(x)))[0]
+
+
+def bits2f(b):
+    import struct
+    return struct.unpack("<d", struct.pack("<Q", b))[0]
